@@ -272,33 +272,42 @@ class Ctx:
         return os.path.join(self.workdir, name)
 
     # ---- L1
-    def l1(self, extra_targets=()):
+    def l1(self, extra_targets=(), extra=()):
+        """`extra`: further modules under Props/ (e.g. "Skeleton") that this property also rests on: they are built and
+        every theorem in them is audited like the property's own; their theorems count as obligations."""
         hits = forbidden_tokens()
         if hits:
             self.l1_broken.append("forbidden tokens in Lean sources: " + "; ".join(hits[:10]))
-        ok, out = lake_build(["Props." + self.prop] + list(extra_targets))
-        names, _ = property_theorems(self.prop)
-        self.cov["obligations"] = len(names)
-        if not ok:
-            bad = sorted(set(re.findall(r"error: ([^\n]*)", out)))[:8]
-            self.l1_broken.append("lake build Props.%s failed: %s" % (self.prop, " | ".join(bad) or out[-600:]))
-            self.cov["discharged"] = 0
-            self.cov["theorems"] = []
-        else:
-            a = audit(self.prop)
-            self.cov["obligations"] = a["obligations"]
-            self.cov["discharged"] = a["discharged"]
-            self.cov["theorems"] = [{"name": t["name"], "axioms": t["axioms"]} for t in a["theorems"]]
+        self.cov["obligations"] = 0
+        self.cov["discharged"] = 0
+        self.cov["theorems"] = []
+        mods = [self.prop] + list(extra)
+        for k, mod in enumerate(mods):
+            if not os.path.exists(os.path.join(LEAN, "Props", mod + ".lean")):
+                self.l1_broken.append("Props/%s.lean does not exist" % mod)
+                continue
+            ok, out = lake_build(["Props." + mod] + (list(extra_targets) if k == 0 else []))
+            names, _ = property_theorems(mod)
+            if not ok:
+                bad = sorted(set(re.findall(r"error: ([^\n]*)", out)))[:8]
+                self.l1_broken.append("lake build Props.%s failed: %s" % (mod, " | ".join(bad) or out[-600:]))
+                self.cov["obligations"] += len(names)
+                continue
+            a = audit(mod)
+            self.cov["obligations"] += a["obligations"]
+            self.cov["discharged"] += a["discharged"]
+            self.cov["theorems"] += [{"name": t["name"], "axioms": t["axioms"]} for t in a["theorems"]]
             for t in a["theorems"]:
                 if not t["ok"]:
                     self.l1_broken.append("theorem %s: axioms %s" % (t["name"], t["axioms"]))
             if self.tier == "thorough":
-                p = sh(["lake", "env", "leanchecker", "Props." + self.prop], cwd=LEAN, timeout=3000)
-                self.cov["leanchecker_rc"] = p.returncode
+                p = sh(["lake", "env", "leanchecker", "Props." + mod], cwd=LEAN, timeout=3000)
+                self.cov["leanchecker_rc"] = max(p.returncode, self.cov.get("leanchecker_rc", 0))
                 if p.returncode != 0:
-                    self.l1_broken.append("leanchecker Props.%s: %s" % (self.prop, (p.stdout + p.stderr)[-400:]))
-        self.cov["checker_cmd"] = "cd /verif/lean && lake build Props.%s && lake env lean ../build/Audit_%s.lean  (#print axioms of every theorem in Props/%s.lean)%s" % (
-            self.prop, self.prop, self.prop, "; lake env leanchecker Props.%s" % self.prop if self.tier == "thorough" else "")
+                    self.l1_broken.append("leanchecker Props.%s: %s" % (mod, (p.stdout + p.stderr)[-400:]))
+        self.cov["checker_cmd"] = "; ".join(
+            "cd /verif/lean && lake build Props.%s && lake env lean ../build/Audit_%s.lean  (#print axioms of every theorem in Props/%s.lean)%s" % (
+                m, m, m, "; lake env leanchecker Props.%s" % m if self.tier == "thorough" else "") for m in mods)
         return not self.l1_broken
 
     def ensure_driver(self, area=None):
